@@ -61,7 +61,7 @@ def machine : Machine where
             (label pc, c2)
   results := fun c => c.threads.map fun t => t.hist.reverse.map fun (_, r) => showRes r
   final := fun c =>
-    s!"ctxpool={flags (c.ctxPool.map fun i => (ctxOf c i).closed)} chanpool={flags (c.chanPool.map fun i => (chanOf c i).isSome)} mbox={c.mbox.length}"
+    s!"ctxpool={flags (c.ctxPool.map fun i => (ctxOf c i).closed)} chanpool={flags (c.chanPool.map fun i => (chanOf c i).isSome)} mbox={c.mbox.length} timers=ok"
 
 /-! ### grain path:  gask asis | progs | schedule -/
 
@@ -107,7 +107,7 @@ def grainMachine : Machine where
             (Model.C15Grain.label pc, c2)
   results := fun c => c.threads.map fun t => t.hist.reverse.map fun (_, r) => showResG r
   final := fun c =>
-    s!"ctxpool={flags (c.ctxPool.map fun i => (Model.C15Grain.ctxOf c i).closed)} chanpool={c.chanPool.length} mbox={Model.C15Grain.linked c 1000 c.head}"
+    s!"ctxpool={flags (c.ctxPool.map fun i => (Model.C15Grain.ctxOf c i).closed)} chanpool={c.chanPool.length} mbox={Model.C15Grain.linked c 1000 c.head} timers=ok"
 
 def model (line : String) : String :=
   if line.startsWith "gask" then runConc grainMachine line else runConc machine line
